@@ -24,7 +24,7 @@ from ..core import outcome
 RULE = ("A: one case = one well-formed file state of MC_C02 (format, sample records in any order/multiplicity, header lines, CRLF, final newline, "
         "FASTA width), read lazily, eagerly and through the buffer class; B: one random grammar-generated file read and validated by TLC; "
         "non-trivial = more than one record with unequal field widths, or a header/comment line, CRLF or missing final newline; distinct by file text")
-FORMATS = ["vcfinfo", "bed3", "bed6", "bed6dot", "bed12", "bedgraph", "narrowpeak", "chromsizes", "vcf", "sam", "gtf", "gff", "pairs", "wig", "gfa", "fasta", "fastq"]
+FORMATS = ["vcfinfo", "vcfphased", "bed3", "bed6", "bed6dot", "bed12", "bedgraph", "narrowpeak", "chromsizes", "vcf", "sam", "gtf", "gff", "pairs", "wig", "gfa", "fasta", "fastq"]
 KINDS = {
     "bed3": ["str", "int", "int"], "bed6": ["str", "int", "int", "str", "optint", "strand"],
     "bed12": ["str", "int", "int", "str", "optint", "strand", "int", "int", "str", "int", "ints", "ints"],
@@ -318,10 +318,70 @@ def check_vcf_typed(v, alt=False):
     return {"n": n, "nt": [json.dumps(v["text"])], "bad": bad}
 
 
+VCF_BUFFERS = ["default", "VCFBuffer2", "VCFMatrixBuffer", "PhasedVCFMatrixBuffer", "PhasedHaplotypeVCFMatrixBuffer"]
+
+
+def check_vcf_phased(v, order=None, lazies=(True, False)):
+    """A VCF whose genotypes are all phased and biallelic, read through every VCF buffer class in the given order (lazily and eagerly):
+    each class gives its own columns, whichever class read a file with this header before."""
+    import bionumpy as bnp
+    from bionumpy.io import vcf_buffers as vb
+    data, exp = bytes(v["text"]), v["expected"]
+    path = os.path.join(v["_dir"], "ph_%d_%d.vcf" % (os.getpid(), v["_id"]))
+    with open(path, "wb") as f:
+        f.write(data)
+    bad, n = [], 0
+    for name in (order or VCF_BUFFERS):
+        for lazy in lazies:
+            kw = {} if name == "default" else {"buffer_type": getattr(vb, name)}
+
+            def run_(variant):
+                t = bnp.open(path, lazy=lazy, **kw).read()
+                if variant == "reversed":
+                    t = t[::-1]
+                if name == "default":
+                    return [r[:7] for r in project("vcf", t)]
+                if name == "VCFBuffer2":
+                    return [[list(b) for b in row] for row in t.genotype.raw().tolist()]
+                g = t.genotypes
+                codes = [[int(x) for x in row] for row in np.asarray(g.raw()).tolist()]
+                if name == "PhasedHaplotypeVCFMatrixBuffer":
+                    return codes
+                txt = g.tolist()
+                txt = txt if isinstance(txt, str) else "\n".join(txt)
+                return [codes if name == "PhasedVCFMatrixBuffer" else None, [[_bytes(x) for x in row.split("\t")] for row in txt.split("\n")]]
+            for variant in ("", "reversed"):
+                rows = exp[::-1] if variant else exp
+                want = {"default": [e["base"][:7] for e in rows], "VCFBuffer2": [e["gt"] for e in rows],
+                        "VCFMatrixBuffer": [None, [e["gt"] for e in rows]], "PhasedVCFMatrixBuffer": [[e["phased"] for e in rows], [e["gt"] for e in rows]],
+                        "PhasedHaplotypeVCFMatrixBuffer": [e["haplo"] for e in rows]}[name]
+                o = outcome(run_, variant)
+                n += 1
+                ok = o[0] == "ok" and (_same("vcf", [w + [[]] for w in want], [g + [[]] for g in o[1]]) if name == "default" else o[1] == want)
+                if not ok:
+                    bad.append({"what": "a VCF with phased genotypes read through %s differs from what the text says" % name,
+                                "tags": {"format": "vcfphased", "buffer": name, "lazy": lazy, "mode": variant or "plain", "kind": "raises" if o[0] != "ok" else "values",
+                                         "order": "-".join(order) if order else "all"},
+                                "group": {"format": "vcfphased", "buffer": name, "lazy": lazy, "order": "-".join(order) if order else "all"},
+                                "vector": {k: v[k] for k in v if not k.startswith("_")}, "case": {"text": data.decode("latin-1")[-300:]},
+                                "expected": str(want)[:300], "observed": str(o)[:300]})
+    os.remove(path)
+    return {"n": n, "nt": [json.dumps(v["text"])], "bad": bad}
+
+
+def check_vcf_buffer_order(job):
+    """the buffer classes in one order, in a process where no VCF was read before"""
+    order, lazies, v = job
+    r = check_vcf_phased(v, order=order, lazies=lazies)
+    return {"n": r["n"], "nt": ["vcfbuffers|%s|%s" % ("-".join(order), lazies)], "bad": r["bad"]}
+
+
 def check_vector(v):
     fmt = v["fmt"]
     if fmt == "vcfinfo":
         return check_vcf_typed(v)
+    if fmt == "vcfphased":
+        return check_vcf_phased(v)
     data = bytes(v["text"])
     exp = v["expected"]
     bad, n = [], 0
@@ -442,7 +502,7 @@ def record_trace(job):
     import bionumpy as bnp
     tid, seed, d = job
     rng = random.Random(seed)
-    fmt = rng.choice([f for f in FORMATS if f not in ("bed6dot", "vcfinfo")])
+    fmt = rng.choice([f for f in FORMATS if f not in ("bed6dot", "vcfinfo", "vcfphased")])
     text = _gen_file(rng, fmt)
     data = text.encode("latin-1")
     res = read_all(fmt, data, d, "B%d_%d" % (os.getpid(), tid))
@@ -497,7 +557,7 @@ def run(ctx):
     for fmt in FORMATS:
         res = ctx.tlc("MC_C02", tag="MC_C02_" + fmt, spec="Spec",
                       constants={"Fmt": fmt, "MaxRecords": 2 if quick else 3, "WrapWidths": [1, 2, 4] if quick else [1, 2, 3, 4, 10]},
-                      invariants=["EntriesAreRecords", "Emit"], coverage=True, workers=4)
+                      invariants=["EntriesAreRecords", "PhasedInverse", "Emit"], coverage=True, workers=4)
         ctx.require_actions(res, "MC_C02", ["AddRecord", "Close"])
         vectors += res.vectors
     for i, v in enumerate(vectors):
@@ -508,6 +568,10 @@ def run(ctx):
     # the same INFO keys declared with other types in a second file: both orders, each in a process of its own
     vv = [v for v in vectors if v["fmt"] == "vcfinfo" and len(v["expected"]) >= 2][:3]
     ctx.absorb(core.pmap_isolated(check_vcf_order, [(o, v) for v in vv for o in (["std", "alt"], ["alt", "std"])]))
+    # every VCF buffer class after every other one on a file with the same header, eagerly and lazily, each pair in a process of its own
+    pv = [v for v in vectors if v["fmt"] == "vcfphased" and len(v["expected"]) >= 2][:1]
+    import itertools
+    ctx.absorb(core.pmap_isolated(check_vcf_buffer_order, [([a, b], lz, v) for v in pv for a, b in itertools.permutations(VCF_BUFFERS, 2) for lz in ((False,), (True, False))]))
     ntr = 300 if quick else 3000
     recs = core.pmap(record_trace, [(i, ctx.seed * 100003 + i, ctx.work) for i in range(ntr)], chunk=20)
     bad, acc = validate(ctx, recs)
